@@ -211,6 +211,7 @@ def run_check(pid, tier, seed):
     known_hits = collections.OrderedDict()
     harness_problems = []
     by_sig = collections.OrderedDict()
+    t_handle = time.time()
     for fl in total["fails"]:
         by_sig.setdefault(fl["sig"], fl)
     for sig, fl in by_sig.items():
@@ -218,10 +219,11 @@ def run_check(pid, tier, seed):
         if k is not None:
             known_hits[k["signature"]] = k
             continue
-        if len(violations) >= 8:
+        if len(violations) >= 5:
             continue
         try:
-            v = handle_violation(mod, pid, seed, fl)
+            # minimisation is time-boxed over the whole run: later violations are reported un-minimised
+            v = handle_violation(mod, pid, seed, fl, minimise=(time.time() - t_handle < 240))
         except HarnessError as e:
             harness_problems.append(str(e))
             continue
@@ -295,7 +297,7 @@ def run_check(pid, tier, seed):
 _reported = set()
 
 
-def handle_violation(mod, pid, seed, fl):
+def handle_violation(mod, pid, seed, fl, minimise=True):
     scn = fl["scenario"]
     # (1) confirm in this process
     again = [x for x in mod.judge_scenario(scn) if x["oracle"] == fl["oracle"]]
@@ -306,7 +308,7 @@ def handle_violation(mod, pid, seed, fl):
         return handle_history_violation(mod, pid, seed, fl)
     # (2) minimise
     small = scn
-    if hasattr(mod, "minimise"):
+    if minimise and hasattr(mod, "minimise"):
         try:
             small = mod.minimise(scn, fl["oracle"])
         except Exception:
